@@ -190,6 +190,7 @@ F2XNames  == << F1XNames[1], F1XNames[1] >>
 F2XChains == << F1XChains[1], F1XChains[1] >>
 F2XConvs  == << ConvsAll, ConvsAll >>
 F2XSpecs  == << SpecsAll, SpecsAll >>
+T2XNames  == << NamesAll \cup { <<" ", "0">>, <<"-", "1">>, <<"<ar0>">> }, NamesAll >>
 T2XChains == << { None, AReal, AIdx0 }, { None, AKeyA } >>
 T2XConvs  == << { None, <<"!", "r">> }, { None, <<"!", "x">> } >>
 T2XSpecs  == << { None, <<":", "d">>, <<":", "{", "}">>, <<":", "{", "0", "}">>, <<":", "{", "w", "}">> },
